@@ -245,8 +245,13 @@ def check_args(facts, chk):
             eb = ExprBuilder(b)
             s = eb.operand(t.args[0])
             n = eb.operand(t.args[1])
-            ok = s[0] == 'call' and s[1].endswith('SequenceRecord::seq') and n[0] == 'call' and n[1].endswith('SequenceRecord::num_bases') \
-                and show(s[2][0]) == show(n[2][0])
+            is_seq = s[0] == 'call' and s[1].endswith('SequenceRecord::seq')
+            is_nb = n[0] == 'call' and n[1].endswith('SequenceRecord::num_bases')
+            if not (is_seq and is_nb):
+                # the sequence / its length arrive some other way (parameters of a helper, a local slice ..): not a shape this rule
+                # can judge - the functional rules decide what is enumerated
+                raise AnchorLost('SplitKmer::new(%s, %s, ..) in %s: arguments are not record.seq() / record.num_bases()' % (show(s)[:60], show(n)[:60], b.name))
+            ok = show(s[2][0]) == show(n[2][0])
             return ok, show(s), show(n)
         r = chk.guard('C01.args', key, go)
         if r is None:
